@@ -854,7 +854,7 @@ def run(chk):
                        "admissibility / gap clauses"]
     chk.build()
     if chk.model_available():
-        common.build_reported(chk, "C03", "proofs/CnEnumProofs.v", "props/C03_reported.v")
+        common.build_reported(chk, "C03", ["proofs/CnEnumProofs.v", "proofs/CnRefSolverProofs.v"], "props/C03_reported.v")
     q = chk.tier == "quick"
     n_solve, n_est = (160, 90) if q else (4000, 1500)
     cases = []
